@@ -91,12 +91,12 @@ static inline void QDataStream_wr_u32_own(QDataStream *s, quint32 v) { MODEL_LIM
   QByteArray_append_char(s->wba, (char)(unsigned char)(v >> 8)); QByteArray_append_char(s->wba, (char)(unsigned char)v); s->pos += 4; }
 #endif
 #ifdef QBA_WLOG
-size_t g_w;   /* witness position in the write log (nondeterministic, fixed before the call) */
+int g_w;   /* witness position in the write log (nondeterministic, >= 0, fixed before the call) */
 /* byte of a write log at the witness position (meaningful when g_w < b->n) */
 #define WLOG_W(b) (((b)->patched && g_w == 2) ? (b)->p2 : ((b)->patched && g_w == 3) ? (b)->p3 : (b)->w_val)
 static inline void wlog_put(QDataStream *s, unsigned char v) { QByteArray *b = s->wba;
   MODEL_LIMIT(b != 0 && s->pos == b->n && (b->wlog || b->n == 0), "write stream: append at the end of a write log only"); MODEL_LIMIT(b->n < 64 * QBA_MAX, "write log size");
-  b->wlog = true; if (g_w == (size_t)b->n) { b->w_set = true; b->w_val = (char)v; }
+  b->wlog = true; if (g_w == b->n) { b->w_set = true; b->w_val = (char)v; }
 #ifdef QBA_OWNED
   /* a log that is still short is also kept byte by byte (small locals such as the 16-byte XOR pad) */
   if (b->n < QBA_OWNED && (b->owned || b->n == 0)) { b->own[b->n] = (char)v; b->owned = true; } else { b->owned = false; }
@@ -109,7 +109,7 @@ static inline void QDataStream_wr_u32(QDataStream *s, quint32 v) { wlog_put(s, (
 static inline int QDataStream_writeFrom(QDataStream *s, const QByteArray *x, int len) { QByteArray *b = s->wba;
   MODEL_LIMIT(len == x->n && !x->wlog, "writeRawData(x.data(), n) with n != x.size() or x a write log");
   MODEL_LIMIT(b != 0 && s->pos == b->n && (b->wlog || b->n == 0), "write stream: append at the end of a write log only"); MODEL_LIMIT(b->n < 64 * QBA_MAX && len <= QBA_MAX, "write log size");
-  b->wlog = true; if (g_w >= (size_t)b->n && g_w - (size_t)b->n < (size_t)len) { b->w_set = true; b->w_val = QBA_AT(x, (int)(g_w - (size_t)b->n)); }
+  b->wlog = true; if (g_w >= b->n && g_w - b->n < len) { b->w_set = true; b->w_val = QBA_AT(x, g_w - b->n); }
   QBA_OWN_INIT(b); b->n += len; s->pos += len; return len; }
 #endif
 /* a plain array: its n bytes are bytes [0,n) of src */
